@@ -48,7 +48,9 @@ func TestVerifC17ClientRaw(t *testing.T) {
 	for i := 0; i < n; i++ {
 		ver := conformancev1.HTTPVersion(1 + i%2)
 		raw := &conformancev1.RawHTTPRequest{Verb: verifkit.Pick(rng, []string{"POST", "POST", "GET", "PUT"})}
-		path := verifkit.Pick(rng, []string{"/connectrpc.conformance.v1.ConformanceService/Unary", "/some/other/path", "/x"})
+		path := verifkit.Pick(rng, []string{"/connectrpc.conformance.v1.ConformanceService/Unary", "/some/other/path", "/x",
+			// escapes that must reach the server as written
+			"/connectrpc.conformance.v1.ConformanceService%2FUnary", "/a%2fb/%55nary", "/sp%20ace/%7Etilde", "/pct%25/plus+sign"})
 		raw.Uri = path
 		wantQuery := url.Values{}
 		if rng.Chance(1, 3) {
@@ -147,8 +149,11 @@ func TestVerifC17ClientRaw(t *testing.T) {
 		if c.Method != raw.Verb {
 			rep.Violation("raw/client/method", fmt.Sprintf("method %s on the wire, definition says %s", c.Method, raw.Verb), w)
 		}
-		if c.Path != path {
-			rep.Violation("raw/client/path", fmt.Sprintf("path %q on the wire, definition says %q", c.Path, path), w)
+		if c.RequestTarget != path {
+			rep.Violation("raw/client/path", fmt.Sprintf("request target %q on the wire, definition says %q", c.RequestTarget, path), w)
+		}
+		if strings.Contains(path, "%") {
+			rep.Count("paths_with_escapes", 1)
 		}
 		gotQuery, _ := url.ParseQuery(c.RawQuery)
 		for k, vs := range wantQuery {
